@@ -26,11 +26,13 @@ Inductive res (A : Type) : Type :=
 | ROk (a : A)
 | RErr (e : cel_error)
 | RPanic
-| RFuel.
+| RFuel
+| RUnmod.     (* the model does not cover this (external crate: regex, tz data, libm, ...) *)
 Arguments ROk {A} _.
 Arguments RErr {A} _.
 Arguments RPanic {A}.
 Arguments RFuel {A}.
+Arguments RUnmod {A}.
 
 Definition rbind {A B} (r : res A) (f : A -> res B) : res B :=
   match r with
@@ -38,6 +40,7 @@ Definition rbind {A B} (r : res A) (f : A -> res B) : res B :=
   | RErr e => RErr e
   | RPanic => RPanic
   | RFuel => RFuel
+  | RUnmod => RUnmod
   end.
 Notation "'let*' x ':=' r 'in' k" := (rbind r (fun x => k))
   (at level 200, x pattern, r at level 100, k at level 200).
